@@ -75,6 +75,7 @@ type FuncSpec struct {
 	Uses     []*Clause // use lemma(args): instantiate a proved lemma before the postconditions
 	Wits     []*Clause // witness name = expr (reported from counterexamples)
 	Replay   string
+	ReplayFor map[string]string // label substring -> template
 }
 
 type GhostVar struct {
@@ -415,7 +416,16 @@ func (db *SpecDB) loadFile(path, pkgPath string) error {
 					curLoop.Decr = strings.TrimSpace(rest)
 				}
 			case "replay":
-				cur.Replay = strings.TrimSpace(rest)
+				// replay TEMPLATE[@dir] [for LABEL-SUBSTRING]
+				f := strings.Fields(rest)
+				if len(f) == 3 && f[1] == "for" {
+					if cur.ReplayFor == nil {
+						cur.ReplayFor = map[string]string{}
+					}
+					cur.ReplayFor[f[2]] = f[0]
+				} else {
+					cur.Replay = strings.TrimSpace(rest)
+				}
 			case "use":
 				e, err := parseExpr(strings.TrimSpace(rest))
 				if err != nil || e.Op != "call" || e.Args[0].Op != "ident" {
